@@ -23,5 +23,5 @@ one() {
 export -f one
 mkdir -p /tmp/mx
 if [ $# -gt 0 ]; then ids="$@"; else ids=$(ls /verif/seeded | grep '^C'); fi
-echo $ids | tr ' ' '\n' | xargs -P 6 -I{} bash -c 'one {}' | sort
+echo $ids | tr ' ' '\n' | xargs -P 10 -I{} bash -c 'one {}' | sort
 git -C /repo worktree prune
